@@ -11,9 +11,11 @@ mod conc;
 mod dur;
 mod gen;
 mod hsc;
+mod lshsc;
 mod model;
 mod runner;
 mod values;
+mod vecsc;
 
 use serde::{Deserialize, Serialize};
 use std::collections::VecDeque;
@@ -25,6 +27,8 @@ pub enum AnyCase {
     Dur(dur::Case),
     Conc(conc::ConcCase),
     Hsc(hsc::HCase),
+    Vec(vecsc::VCase),
+    Lsh(lshsc::LCase),
 }
 
 static PANIC_MSG: std::sync::Mutex<Option<String>> = std::sync::Mutex::new(None);
@@ -44,6 +48,8 @@ fn child_run(case: &AnyCase) -> String {
         AnyCase::Dur(c) => c.seed,
         AnyCase::Conc(c) => c.seed,
         AnyCase::Hsc(c) => c.seed,
+        AnyCase::Vec(c) => c.seed,
+        AnyCase::Lsh(c) => c.seed,
     };
     simsys::reset_thread_ordinals();
     simsys::enable(simsys::SimConfig { root: dur::root_dir(), seed });
@@ -63,6 +69,8 @@ fn child_run(case: &AnyCase) -> String {
             AnyCase::Dur(c) => serde_json::to_string(&dur::exec(c)).expect("serialise outcome"),
             AnyCase::Conc(c) => serde_json::to_string(&conc::exec(c)).expect("serialise outcome"),
             AnyCase::Hsc(c) => serde_json::to_string(&hsc::exec(c)).expect("serialise outcome"),
+            AnyCase::Vec(c) => serde_json::to_string(&vecsc::exec(c)).expect("serialise outcome"),
+            AnyCase::Lsh(c) => serde_json::to_string(&lshsc::exec(c)).expect("serialise outcome"),
         })
         .expect("spawn scenario thread");
     let out = match h.join() {
@@ -109,6 +117,8 @@ fn main() {
                     "c11enum" => AnyCase::Dur(gen::c11_enum(i, 5, if p1 == 0 { 10000 } else { p1 as usize })),
                     "c12" => AnyCase::Dur(gen::c12_random(run_seed)),
                     "c13" => AnyCase::Dur(gen::c13_history(run_seed)),
+                    "vec" => AnyCase::Vec(gen::vec_case(run_seed)),
+                    "lsh" => AnyCase::Lsh(gen::lsh_case(run_seed)),
                     "c32" => AnyCase::Hsc(gen::c32_case(run_seed)),
                     "c33" => AnyCase::Hsc(gen::c33_case(run_seed)),
                     "c10" => AnyCase::Hsc(gen::c10_case(run_seed)),
